@@ -59,6 +59,9 @@ type Ref struct {
 	idx  *Term // 64-bit
 }
 
+// OpaqueFloat is float64(symbolic int): only pass-through is supported.
+type OpaqueFloat struct{ src *Term }
+
 // unsafe.Pointer wrapper
 type UPtr struct{ p Value }
 
